@@ -23,7 +23,7 @@ func eventSig(evs []Event) string {
 }
 
 // mergeGroups partitions states by their event signature and merges each group.
-func (x *Exec) mergeGroups(outs []*State, key ssa.Value) []*State {
+func (x *Exec) mergeGroups(outs []*State, key ssa.Value, baseDec int) []*State {
 	groups := map[string][]*State{}
 	var order []string
 	for _, s := range outs {
@@ -35,7 +35,7 @@ func (x *Exec) mergeGroups(outs []*State, key ssa.Value) []*State {
 	}
 	var res []*State
 	for _, sig := range order {
-		res = append(res, x.mergeStates(groups[sig], key))
+		res = append(res, x.mergeStates(groups[sig], key, baseDec))
 	}
 	return res
 }
@@ -82,9 +82,14 @@ func (x *Exec) mergeVal(guards []Term, vs []Val) Val {
 	return out
 }
 
-func (x *Exec) mergeStates(outs []*State, key ssa.Value) *State {
+func (x *Exec) mergeStates(outs []*State, key ssa.Value, baseDec int) *State {
 	if len(outs) == 1 {
 		return outs[0]
+	}
+	for _, s := range outs {
+		if baseDec > len(s.dec) {
+			baseDec = len(s.dec)
+		}
 	}
 	// common prefix of the path conditions
 	n := len(outs[0].pc)
@@ -98,10 +103,14 @@ func (x *Exec) mergeStates(outs []*State, key ssa.Value) *State {
 	m := outs[0].clone()
 	m.pc = append([]Term(nil), outs[0].pc[:n]...)
 	m.pcSet = nil
+	// a branch is selected by the decisions taken since the fork: explicit
+	// formulas over the inputs (no fresh selector), so that two symbolic runs
+	// of the same code select corresponding branches by congruence
 	guards := make([]Term, len(outs))
-	for i := range outs {
-		guards[i] = x.fresh("g", SBool)
+	for i, s := range outs {
+		guards[i] = x.share(And(s.dec[baseDec:]...))
 	}
+	m.dec = append([]Term(nil), outs[0].dec[:baseDec]...)
 	// exactly one guard holds
 	m.assume(Or(guards...))
 	for i := range guards {
